@@ -3,6 +3,7 @@ package catalog
 import (
 	"encoding/json"
 	"strconv"
+	"sync"
 
 	jschemaLib "github.com/jsightapi/jsight-schema-go-library"
 	"github.com/jsightapi/jsight-schema-go-library/notations/jschema"
@@ -65,15 +66,33 @@ func unmarshalJSightSchema(s jschemaLib.Schema) (Schema, error) {
 		return Schema{}, err
 	}
 
-	example, err := s.Example()
+	example, err := buildExample(s)
 	if err != nil {
 		return Schema{}, err
 	}
 
 	ret := NewSchema(notation.SchemaNotationJSight)
 	ret.ContentJSight = astNodeToJsightContent(n, ret.UsedUserTypes, ret.UsedUserEnums)
-	ret.Example = string(example)
+	ret.Example = example
 	return ret, nil
+}
+
+// exampleMx serializes building of examples.
+// The schema library builds an example in buffers taken from a package-level
+// pool and returns a slice of a buffer it has already put back, so while one
+// goroutine still reads its example another one can get the same buffer and
+// overwrite it. The example is copied before the lock is released.
+var exampleMx sync.Mutex
+
+func buildExample(s jschemaLib.Schema) (string, error) {
+	exampleMx.Lock()
+	defer exampleMx.Unlock()
+
+	example, err := s.Example()
+	if err != nil {
+		return "", err
+	}
+	return string(example), nil
 }
 
 func astNodeToJsightContent(
